@@ -61,6 +61,26 @@ def load_known(prop):
     return [e for e in data.get("findings", []) if e["property"] == prop]
 
 
+_KNOWN_CACHE = {}
+
+
+def matches_open_known(check, vio):
+    """True if an (unminimised) violation already matches an open known
+    finding: engines use it to skip the expensive minimisation of instances
+    that will only be counted."""
+    prop = check.PROPERTY
+    if prop not in _KNOWN_CACHE:
+        _KNOWN_CACHE[prop] = [e for e in load_known(prop)
+                              if e["status"] == "open"]
+    for ent in _KNOWN_CACHE[prop]:
+        try:
+            if check.signature_match(ent["signature"], vio):
+                return True
+        except Exception:
+            continue
+    return False
+
+
 # --------------------------------------------------------------------------
 # fork-per-slice pool
 # --------------------------------------------------------------------------
